@@ -715,7 +715,17 @@ func c03Work(c *engine.Ctx) {
 		{"a@", "let ", ",", ";"}, {"a@=1", "var ", ",", ";"}, {"case @:;", "switch(x){", "", "}"}, {"m@(){}", "class C{", "", "}"}, {"#p@=1", "class C{", ";", "}"}, {"a", "x=(", ",", ");"},
 		{"${1}", "x=`", "", "`;"}, {"p@", "function f(", ",", "){}"}, {"{}", "", "", ""}, {";", "", "", ""},
 		{"a@=>1", "x=[", ",", "];"}, {"function f@(){}", "", "", ""}, {"[1]", "x=[", ",", "];"}, {"{a:1}", "x=[", ",", "];"}, {"-1", "x=[", ",", "];"}, {"!0", "x=[", ",", "];"}, {"/r/", "x=[", ",", "];"},
-		{"l@:;", "", "", ""}, {"a?.b", "x=[", ",", "];"}, {"new A(1)", "x=[", ",", "];"}, {"import a@ from 'm'", "", "\n", ""}, {"export var e@=1", "", "\n", ""},
+		{"l@:;", "", "", ""},
+		// every expression form as a list element, every statement form in a row: a depth counter that is not
+		// restored on some path adds up
+		{"(1)", "x=[", ",", "];"}, {"`t${1}`", "x=[", ",", "];"}, {"a?1:2", "x=[", ",", "];"}, {"a=1", "x=[", ",", "];"}, {"f(1)", "x=[", ",", "];"}, {"a[1]", "x=[", ",", "];"}, {"async()=>1", "x=[", ",", "];"},
+		{"function(){}", "x=[", ",", "];"}, {"class{}", "x=[", ",", "];"}, {"(1,2)", "x=[", ",", "];"}, {"a??b", "x=[", ",", "];"}, {"typeof a", "x=[", ",", "];"}, {"a++", "x=[", ",", "];"}, {"a.b", "x=[", ",", "];"},
+		{"...a", "x=[", ",", "];"}, {"1n", "x=[", ",", "];"}, {"'s'", "x=[", ",", "];"}, {"this", "x=[", ",", "];"}, {"null", "x=[", ",", "];"}, {"a`t`", "x=[", ",", "];"}, {"import.meta", "x=[", ",", "];"}, {"1+2", "x=[", ",", "];"},
+		{"await 1", "async function f(){x=[", ",", "];}"}, {"yield 1", "function*f(){x=[", ",", "];}"}, {"new.target", "function f(){x=[", ",", "];}"},
+		{"if(a)b;", "", "", ""}, {"if(a)b;else c;", "", "", ""}, {"for(;;)break;", "", "", ""}, {"for(a in b);", "", "", ""}, {"for(a of b);", "", "", ""}, {"while(0);", "", "", ""}, {"do;while(0)", "", "\n", ""},
+		{"switch(a){case 1:}", "", "", ""}, {"try{}catch{}finally{}", "", "", ""}, {"class C@{}", "", "", ""}, {"throw a;", "", "", ""}, {"debugger;", "", "", ""}, {"var a;", "", "", ""}, {"let b@;", "", "", ""},
+		{"return;", "function f(){", "", "}"}, {"return 1;", "x=()=>{", "", "};"}, {"break;", "for(;;){", "", "}"}, {"continue;", "for(;;){", "", "}"}, {"x=1", "", ";", ""}, {"a:b", "x={", ",", "};"}, {"[a@]", "let[", ",", "]=z;"},
+		{"k@:v@", "let{", ",", "}=z;"}, {"a@=1", "function f(", ",", "){}"}, {"static{}", "class C{", "", "}"}, {"get g@(){}", "class C{", "", "}"}, {"${1}", "x=f`", "", "`;"}, {"a?.b", "x=[", ",", "];"}, {"new A(1)", "x=[", ",", "];"}, {"import a@ from 'm'", "", "\n", ""}, {"export var e@=1", "", "\n", ""},
 	} {
 		for _, n := range []int{999, 1000, 1001, 2500} {
 			k++
@@ -741,7 +751,7 @@ func c03Work(c *engine.Ctx) {
 		"class K { async *m(){ yield await 1 } static { this.x } get p(){ return super.p } }", "g = { async m(){ await 1 }, *n(){ yield 1 }, get p(){ return 1 } };", "for (const z of []) { continue }", "l: for(;;){ break l }",
 		"for (var i = 0 in {};;) ;", "g = `${async a => a}`;", "g = [async a => a, function*(){ yield }];", "do ; while (0)", "switch (g) { case 1: break }", "try { } catch { } finally { }", "if (g) ; else ;", "g = class { static async m(){ await 1 } };"}
 	follow := []string{"await x;", "yield x;", "yield;", "var await;", "var yield;", "await: 1;", "yield: 1;", "for await (x of y);", "return;", "return 1;", "break;", "continue;", "x = y in z;", "new.target;", "super.x;",
-		"arguments;", "let await;", "x = await;", "x = yield;", "x = async () => await y;", "this;", "for (x = y in z;;);", "x = await + 1;", "x = yield * 2;", "async function q(){ await 1 }", "function* q(){ yield 1 }", "let x = 1;", "break l;"}
+		"arguments;", "let await;", "x = await;", "x = yield;", "x = async () => await y;", "this;", "for (x = y in z;;);", "x = await + 1;", "x = yield * 2;", "async function q(){ await 1 }", "function* q(){ yield 1 }", "let x = 1;", "break l;", "'use strict';", "'x'; y;", "export default 1;", "export default function(){}", "import q from 'm';", "x = a ? b in c : d;"}
 	for ci := range c03Contexts {
 		for _, kc := range constructs {
 			if kc == "for (var i = 0 in {};;) ;" {
